@@ -73,6 +73,18 @@ CHECKS = {
         text="Every request of MD5/SHA-1 x authNoPriv/authPriv users must be verified by the independent agent (digest over the datagram as sent, flags = level|reportable, discovered engine id/boots/time, user name; all usmStats counters clean) and every authentic minimal-BER response must be accepted and decoded correctly. Swept: passwords of length 1..300 (thorough: every length), engine ids 5..32, boots/time, and paddings such that message, scoped-PDU and PDU content lengths each take EVERY value 100..300 in both directions (coverage measured; a gap makes the run inconclusive).",
         ref="DESIGN.md 4/C10",
     ),
+    "C11": dict(
+        cat="exploration",
+        technique="runtime monitoring: recording privacy plug-ins supplied through the plug-in namespace, cross-checked against every datagram at the seam",
+        text="Harness plug-ins (keyed stream with 0/8/16-octet salts, length-changing framing) record every encrypt/decrypt call; for each datagram the monitor checks that msgData is exactly the plug-in's ciphertext for this call, the salt travels as privacy parameters, the key equals the independent localisation with the user's auth hash, boots/time match the datagram, the plaintext is the intended scoped PDU, and no 8-octet plaintext window or SET marker is visible on the wire; responses are decrypted with the message's own parameters.",
+        ref="DESIGN.md 4/C11",
+    ),
+    "C12": dict(
+        cat="exploration",
+        technique="runtime monitoring: operation histories on one client under a virtual clock shared with the reference agent (time advances, reboots), agent time-window verdicts as monitor",
+        text="Random histories of 3..30 steps (operations, clock advances from 1 s to 3 days, agent reboots) per security level; every operation must succeed with the database truth, the first datagram must be a well-formed discovery probe, the discovered engine id must be used, bad discovery replies refused, and the agent's notInTimeWindow verdicts never exceed the number of reboots. 'Eventually' is restated as bounded progress over generated histories.",
+        ref="DESIGN.md 4/C12",
+    ),
     "C15": dict(
         cat="exploration",
         technique="runtime monitoring: recursive exact-type walk over PyWrapper results + equality with pythonised raw results",
